@@ -20,7 +20,7 @@ func Props() []kit.Runner {
 		kit.Prop[DefaultCase]{ID: "C14", Name: "default", Quick: 10000, Thorough: 100000, Gen: GenDefault, Check: CheckDefault, Classify: ClassifyDefault,
 			Rule: "Runtime.DefaultAuthentication in {basic, bearer, apikey header, apikey query, Compose(apikey header, nil, bearer), Compose(apikey query, basic)} x operation AuthInfo in {none, any of those, PassThroughAuth} x Authorization pre-set by the parameter writer {no, another scheme}; the server runs basic, bearer and both API key authenticators; oracle: they recover exactly the effective credential (the operation's own, else nothing of the default when Authorization is pre-set, else the default) and a pre-set Authorization arrives untouched; " +
 				"non-trivial = default-vs-explicit conflict (own writer or pre-set header) or an applied default with a byte outside [A-Za-z0-9-_.~]; " + ruleCommon},
-		kit.Prop[StackCase]{ID: "C14", Name: "stack", Quick: 1200, Thorough: 8000, Gen: GenStack, Check: CheckStack, Classify: ClassifyStack,
+		kit.Prop[StackCase]{ID: "C14", Name: "stack", Quick: 800, Thorough: 5000, Gen: GenStack, Check: CheckStack, Classify: ClassifyStack,
 			Rule: "one secured operation of a description (basic | apiKey header/query | oauth2 with 0-3 declared scopes; requirement on the operation or global) served by Context.RoutesHandler with the security.* authenticator registered for the scheme, credential sent by the operation's writer, by the default credential, or not at all; oracle: callback gets exactly the credential and the operation's required scopes, handler runs when the callback accepts with a principal and never when it rejects or nothing is sent; " +
 				"non-trivial = a credential is sent and it contains a byte outside [A-Za-z0-9-_.~] or scopes are declared; " + ruleCommon},
 	}
